@@ -96,6 +96,23 @@ Theorem C09_stop_cancel : forall cfg sc n ph pre post,
   (forall i, ~ In (EvDial i) post) /\ In EvExit post.
 Proof. exact stop_cancel_prop. Qed.
 
+(* the context each dial runs under (the loop's variable ctx: the caller's context until the first
+   success, context.Background() afterwards, reconnclient.go:108-112) is never a finished one *)
+Theorem C09_dials_with_live_context : forall cfg sc, c_guard cfg = true ->
+  forallb negb (dial_ctx_done cfg sc (init_state cfg) (sc_script sc)) = true.
+Proof. exact dials_with_live_context. Qed.
+
+(* "only cancellation before the first success may stop it": if the context given to Connect is
+   cancelled (or expires) at a point by which a connection has succeeded - in whatever phase of
+   whatever later iteration - the loop does exactly what it does when that context is never
+   cancelled: same dials, same connections, same waits, same reaction to Disconnect *)
+Theorem C09_caller_context_irrelevant_after_first_success : forall cfg sc,
+  (forall n ph, sc_cancel sc = Some (n, ph) ->
+     existsb is_success (firstn n (sc_script sc)) = true \/
+     (exists o, nth_error (sc_script sc) n = Some o /\ is_success o = true /\ (ph = PConnected \/ ph = PWait))) ->
+  drop_cancel (trace cfg sc) = trace cfg (without_cancel sc).
+Proof. exact caller_context_irrelevant_after_first_success. Qed.
+
 (* F18, what fix 515978c repaired: without [c_abort] the previous theorem is false - no connect
    timeout, CONNACK withheld, Disconnect during that wait: the loop stays in Connect for ever and
    Disconnect never returns *)
@@ -123,5 +140,7 @@ Print Assumptions C09_one_transport_every_prefix.
 Print Assumptions C09_one_connect_same_options.
 Print Assumptions C09_stop_disconnect.
 Print Assumptions C09_stop_cancel.
+Print Assumptions C09_dials_with_live_context.
+Print Assumptions C09_caller_context_irrelevant_after_first_success.
 Print Assumptions C09_stop_disconnect_without_abort_refuted.
 Print Assumptions C09_all_closed_after_disconnect_refuted.
